@@ -74,6 +74,8 @@ def gen_cases(c):
             cases.append("%s 0 ordef:%s:%s" % (h, t, default_for(t, r)))
         for t in ATYS:
             cases.append("%s 0 as:%s" % (h, t))
+        cases.append("%s 0 jsonscan" % h)
+        cases.append("%s 1 jsonscan" % h)
     for h in r.sample(helds, 25):
         for t in TYS:
             cases.append("%s 1 exact:%s" % (h, t))
@@ -122,7 +124,7 @@ def oracle_violation(case, out):
     h, e, a = case.split()
     if out == "panic":
         return "panic"
-    if e == "1" and not a.startswith("ordef") and out != "err stored":
+    if e == "1" and not a.startswith("ordef") and out != "err stored":   # incl. jsonscan
         return "stored Err not returned unchanged"
     if e == "0" and a.startswith("as:") and a[3:] in KINDS and h.startswith("str:0:"):
         k = a[3:]
@@ -178,6 +180,8 @@ def acc_to_coq(a):
     p = a.split(":")
     ty = lambda t: "(TInt %s)" % t.upper() if t in KINDS else {"f32": "TF32", "f64": "TF64", "str": "TStr", "bytes": "TBytes", "bool": "TBool"}[t]
     aty = lambda t: "(AsI %s)" % t.upper() if t in KINDS else {"f32": "AsF32", "f64": "AsF64", "str": "AsStr", "bytes": "AsBytes"}[t]
+    if p[0] == "jsonscan":
+        return "AJsonScan"
     if p[0] == "exact":
         return "(AExact %s)" % ty(p[1])
     if p[0] == "as":
@@ -191,7 +195,7 @@ def out_to_coq(o):
         return "OPanic"
     if p[0] == "err":
         return "OErrStored" if p[1] == "stored" else "OErrOther"
-    if p[1] in ("parsefloat", "fmtfloat"):
+    if p[1] in ("parsefloat", "fmtfloat", "jsonscan"):
         return "OOpaque"
     return "(OOk %s)" % res_to_coq(p[1:] if len(p) > 2 else [p[1], ""])
 
@@ -206,7 +210,7 @@ Definition res_eqb (a b : res) : bool :=
   | _, _ => false end.
 Definition agree (o : outcome res) (e : obs) : bool :=
   match o, e with
-  | Ok (RParseFloat _ _), OOpaque | Ok (RFmtFloat _ _), OOpaque => true
+  | Ok (RParseFloat _ _), OOpaque | Ok (RFmtFloat _ _), OOpaque | Ok (RJsonScan _), OOpaque => true
   | Ok r, OOk r' => res_eqb r r'
   | Err EStored, OErrStored => true
   | Err EStored, _ => false
@@ -249,7 +253,7 @@ def main(tier):
         if why:
             acc = cs.split()[2]
             cls = "panic" if why == "panic" else "stored" if why.startswith("stored") else "not-denoted" if " for a string" in why else "wrong-number"
-            c.report("C17:%s:%s" % (acc.split(":")[0] + ":" + acc.split(":")[1], cls),
+            c.report("C17:%s:%s" % (":".join(acc.split(":")[:2]), cls),
                      "AnyValue accessor %s: %s" % (acc, why),
                      {"kind": "input", "case": cs, "implementation": o, "model": model[i] if i < len(model) else None,
                       "how": "echo '<case>' | harness/bin/h c17   (format: <held> <has_err> <accessor>)"})
